@@ -16,6 +16,22 @@ partition of the rest, J = 2..4; CNL assignments with alpha splits), executed on
 
 Comparisons (a)-(d) are engine-vs-engine on identical rows (every utility vector x availability pattern x chosen
 alternative); (e) is engine-vs-reference (vf.ref_mev, plain Python, never imports biogeme).
+
+Two further alphabets are crossed with the structures (same oracle clauses, nothing stronger):
+
+  * entry points: EVERY public name of biogeme.models of the nested / cross-nested family (ENTRIES: the snake_case
+    functions, the camel-case names of earlier versions that are still exported - nestedMevMu, lognestedMevMu,
+    getMevForNested(Mu), getMevGeneratingForNested, cnl_avail, logcnl_avail, getMevForCrossNested(Mu) - and the
+    term-level functions get_mev_for_*(_mu), turned into models through the public mev / logmev) is put through
+    the clauses that apply to it: (a) unit parameters == logit, (b) whole memberships == nested (with and without
+    scale), (c) scale one == unscaled, (d) tuples == objects, and (e) with the old names of the generating function
+    and of the terms (and the scaled terms with mu = 1).
+  * parameter values that are not the initial values: nest parameters, the scale and the degrees of membership written
+    as FREE parameters whose initial value differs from the value the model is evaluated at (supplied with betas=,
+    as an estimation does).  Initial memberships: all 0 / all 1 / the complement 1 - alpha; whole memberships are also
+    written as a full alpha matrix with explicit zeros (alternative listed in a nest it does not belong to).  The
+    clauses are evaluated at the supplied values: whatever the library decides from the initial values when the
+    expression is built must not change the model.
 """
 from __future__ import annotations
 
@@ -23,6 +39,7 @@ import hashlib
 import itertools
 import json
 import math
+import warnings
 
 from props import c05 as B
 from vf import ref_mev as R
@@ -126,6 +143,148 @@ def cnl_spec(alts, alone, nests, mus, model, mu=None, **forms):
     return s
 
 
+# --------------------------------------------------------------------------- entry points and moved parameters
+# every public name of biogeme.models of the nested / cross-nested family: name -> (family, role, takes the scale mu)
+ENTRIES = {
+    'nested': ('nested', 'model', False), 'lognested': ('nested', 'model', False),
+    'nested_mev_mu': ('nested', 'model', True), 'lognested_mev_mu': ('nested', 'model', True),
+    'nestedMevMu': ('nested', 'model', True), 'lognestedMevMu': ('nested', 'model', True),
+    'get_mev_for_nested': ('nested', 'terms', False), 'getMevForNested': ('nested', 'terms', False),
+    'get_mev_for_nested_mu': ('nested', 'terms', True), 'getMevForNestedMu': ('nested', 'terms', True),
+    'get_mev_generating_for_nested': ('nested', 'generating', False), 'getMevGeneratingForNested': ('nested', 'generating', False),
+    'cnl': ('cnl', 'model', False), 'logcnl': ('cnl', 'model', False),
+    'cnl_avail': ('cnl', 'model', False), 'logcnl_avail': ('cnl', 'model', False),
+    'cnlmu': ('cnl', 'model', True), 'logcnlmu': ('cnl', 'model', True),
+    'get_mev_for_cross_nested': ('cnl', 'terms', False), 'getMevForCrossNested': ('cnl', 'terms', False),
+    'get_mev_for_cross_nested_mu': ('cnl', 'terms', True), 'getMevForCrossNestedMu': ('cnl', 'terms', True),
+}
+INIT_MODES = ['zero', 'one', 'comp']      # initial value of a moved degree of membership: 0 / 1 / 1 - alpha
+
+
+def family_entries(family):
+    """Every way of obtaining a model of the family from a public name: the model functions themselves and the
+    term-level functions fed to the public mev / logmev.  label, entry, via, scaled, log."""
+    out = []
+    for name, (fam, role, scaled) in ENTRIES.items():
+        if fam != family:
+            continue
+        if role == 'model':
+            out.append(dict(label=name, entry=name, via=None, scaled=scaled, log=name.startswith('log')))
+        elif role == 'terms':
+            for via in ('mev', 'logmev'):
+                out.append(dict(label=f'{via}({name})', entry=name, via=via, scaled=scaled, log=(via == 'logmev')))
+    return out
+
+
+def unlisted_entry_points():
+    """public callables of biogeme.models defined in the nested / cross-nested modules that have no role in ENTRIES."""
+    from biogeme import models
+    out = []
+    for name, obj in sorted(vars(models).items()):
+        if name.startswith('_') or not callable(obj) or isinstance(obj, type):
+            continue
+        if getattr(obj, '__module__', '') in ('biogeme.models.nested', 'biogeme.models.cnl') and name not in ENTRIES:
+            out.append(name)
+    return out
+
+
+def moved_init(kind, value, mode):
+    """initial value of a free parameter that is evaluated at `value` (always different from `value`)."""
+    if kind == 'alpha':
+        init = {'zero': 0.0, 'one': 1.0, 'comp': round(1.0 - value, 12)}[mode]
+        if init == value:
+            init = 0.5
+        return init
+    # nest parameter / scale: start at one (the logit corner) or, in mode 'comp', half a unit above the value
+    if mode == 'comp' or value == 1.0:
+        return value + 0.5
+    return 1.0
+
+
+def param6(form, name, value, kind, mode, moved):
+    """B._param plus the form 'movedbeta': a free Beta whose initial value is not the value it is evaluated at;
+    the evaluation value is registered in `moved` (passed with betas= to the engine)."""
+    if form != 'movedbeta':
+        return B._param(form, name, value)
+    from biogeme.expressions import Beta
+    moved[name] = float(value)
+    lo, hi = (0, 1) if kind == 'alpha' else (None, None)
+    return Beta(name, moved_init(kind, float(value), mode), lo, hi, 0)
+
+
+def build_nests6(kind, alts, nests, mus, f, moved):
+    """nests of a nested / cross-nested specification (reverse listing order, like the builders of C05); supports moved
+    parameters and explicit zero memberships.  JSON round trips turn the keys of the alpha dictionaries into strings."""
+    from biogeme.nests import (OneNestForNestedLogit, NestsForNestedLogit, OneNestForCrossNestedLogit,
+                               NestsForCrossNestedLogit)
+    by_str = {str(a): a for a in alts}
+    mode = f.get('init', 'zero')
+    items = []
+    for k in reversed(range(len(nests))):
+        p = param6(f['p'], f'mu_n{k}', mus[k], 'p', mode, moved)
+        if kind == 'nested':
+            items.append((p, list(reversed(nests[k]))))
+        else:
+            al = {}
+            for a in reversed(list(nests[k])):
+                al[by_str[str(a)]] = param6(f['alpha'], f'alpha_{a}_n{k}', nests[k][a], 'alpha', mode, moved)
+            items.append((p, al))
+    if f['syntax'] == 'tuple':
+        return tuple(items)
+    if kind == 'nested':
+        objs = tuple(OneNestForNestedLogit(nest_param=p, list_of_alternatives=m, name=f'n{i}') for i, (p, m) in enumerate(items))
+        return NestsForNestedLogit(choice_set=list(alts), tuple_of_nests=objs)
+    objs = tuple(OneNestForCrossNestedLogit(nest_param=p, dict_of_alpha=al, name=f'n{i}') for i, (p, al) in enumerate(items))
+    return NestsForCrossNestedLogit(choice_set=list(alts), tuple_of_nests=objs)
+
+
+def call_entry(entry, via, V, av, nests, choice, mu):
+    """the model expression obtained through the public name `entry` (term-level functions: through mev / logmev)."""
+    from biogeme import models
+    fam, role, scaled = ENTRIES[entry]
+    fn = getattr(models, entry)
+    with warnings.catch_warnings():
+        warnings.simplefilter('ignore', DeprecationWarning)
+        if role == 'model':
+            return fn(V, av, nests, choice, mu) if scaled else fn(V, av, nests, choice)
+        if role == 'terms':
+            log_gi = fn(V, av, nests, mu) if scaled else fn(V, av, nests)
+            return getattr(models, via)(V, log_gi, av, choice)
+    raise ValueError(entry)
+
+
+def needs_entry_eval(spec):
+    f = spec.get('forms', {})
+    return 'entry' in spec or 'init' in f or 'movedbeta' in (f.get('p'), f.get('alpha'), f.get('mu'))
+
+
+def eval_entry(spec, table):
+    """Like B.eval_spec for utilities / choice given as data columns, plus: spec['entry'] / spec['via'] name the public
+    function that is really called, parameters of form 'movedbeta' are evaluated away from their initial values."""
+    import numpy as np
+    from biogeme.expressions import Variable
+    alts = table.alts
+    J = len(alts)
+    f = dict(B.default_forms(), **spec.get('forms', {}))
+    if f['u'] != 'var' or f['ch'] != 'var':
+        raise ValueError('eval_entry: utilities and choice are data columns')
+    db = table.database()
+    V = B.build_util(alts, 'var', table.us[0])
+    av = B.build_av(alts, f['av'], table.pats[0])
+    moved = {}
+    nests = build_nests6(spec['kind'], alts, spec['nests'], spec['mus'], f, moved)
+    mu = None
+    if spec.get('mu') is not None:
+        mu = param6(f['mu'], 'mu_scale', spec['mu'], 'mu', f.get('init', 'zero'), moved)
+    expr = call_entry(spec.get('entry', spec['model']), spec.get('via'), V, av, nests, Variable('CH'), mu)
+    vals = expr.get_value_c(database=db, betas=(moved or None), prepare_ids=True)
+    return np.asarray(vals, dtype=float).reshape(-1, J)
+
+
+def eval_any(spec, table):
+    return eval_entry(spec, table) if needs_entry_eval(spec) else B.eval_spec(spec, table)
+
+
 class Evaluator:
     """memoises engine evaluations of specs on one table within a structure."""
 
@@ -136,7 +295,7 @@ class Evaluator:
         k = json.dumps(spec, sort_keys=True, default=list)
         if k not in self.memo:
             try:
-                self.memo[k] = B.eval_spec(spec, self.table)
+                self.memo[k] = eval_any(spec, self.table)
             except Exception as e:  # a valid specification must evaluate
                 if isinstance(e, RuntimeError):
                     self.rec.retire = True
@@ -151,17 +310,28 @@ class Evaluator:
 
 
 # --------------------------------------------------------------------------- (a)-(d) for nested structures
-def check_nested_structure(alph, alts, alone, nests, mus, table, rec, tier, si=0):
+def check_nested_structure(alph, alts, alone, nests, mus, table, rec, tier, si=0, moved=None):
+    """moved = None: the forms rotate with the structure (as before).  moved = initial-value mode ('zero'|'one'|'comp'):
+    every nest parameter, scale and degree of membership is a free parameter evaluated away from its initial value, the
+    whole memberships are written as a full matrix with explicit zeros; same clauses, plus cnlmu(mu=1) == cnl."""
     ev = Evaluator(table, rec)
     info = dict(shape=shape(alone, nests), alone=list(alone), nests=[list(n) for n in nests], mus=list(mus))
     whole = [{a: 1.0 for a in n} for n in nests]
     muform = B.MUFORMS[si % 3]          # float / fixbeta / numeric
     pf = B.PFORMS[si % 4]               # nest parameters as Numeric / fixed Beta / free Beta / float (both syntaxes)
     af = B.ALPHAFORMS[si % 3]
+    xf, xm = {}, {}                     # extra forms of every specification / of the scaled ones
+    if moved is not None:
+        inside = [a for a in alts if a not in alone]
+        whole = [{a: (1.0 if a in n else 0.0) for a in inside} for n in nests]
+        muform = pf = af = 'movedbeta'
+        xf = dict(init=moved)
+        xm = dict(mu_form='movedbeta')
+        info = dict(info, parameters='moved-from-initial-values:' + moved)
     scales = alph['scale'][1:]
     for log in (False, True):
         pre = 'log' if log else ''
-        N = nested_spec(alts, alone, nests, mus, pre + 'nested', p=pf)
+        N = nested_spec(alts, alone, nests, mus, pre + 'nested', p=pf, **xf)
         vN = ev(N)
         # (a) all parameters one -> logit
         if all(m == 1.0 for m in mus):
@@ -169,38 +339,43 @@ def check_nested_structure(alph, alts, alone, nests, mus, table, rec, tier, si=0
             compare(rec, 'nested-with-unit-parameters-differs-from-logit', pre + 'nested', pre + 'logit', N, L, table, vN, ev(L), info)
         # (b) whole memberships -> nested
         if nests:
-            C = cnl_spec(alts, alone, whole, mus, pre + 'cnl', p=pf, alpha=af)
+            C = cnl_spec(alts, alone, whole, mus, pre + 'cnl', p=pf, alpha=af, **xf)
             compare(rec, 'cnl-with-whole-memberships-differs-from-nested', pre + 'cnl', pre + 'nested', C, N, table, ev(C), vN, info)
         # (c) scale one
-        N1 = nested_spec(alts, alone, nests, mus, pre + 'nested_mev_mu', mu=1.0, p=pf, mu_form=muform)
+        N1 = nested_spec(alts, alone, nests, mus, pre + 'nested_mev_mu', mu=1.0, p=pf, mu_form=muform, **xf)
         compare(rec, 'scale-one-differs-from-unscaled', pre + 'nested_mev_mu(mu=1)', pre + 'nested', N1, N, table, ev(N1), vN, info)
+        if nests and moved is not None:
+            C1 = cnl_spec(alts, alone, whole, mus, pre + 'cnlmu', mu=1.0, p=pf, alpha=af, mu_form=muform, **xf)
+            compare(rec, 'scale-one-differs-from-unscaled', pre + 'cnlmu(mu=1)', pre + 'cnl', C1, C, table, ev(C1), ev(C), info)
+            compare(rec, 'cnl-with-whole-memberships-differs-from-nested', pre + 'cnlmu(mu=1)', pre + 'nested', C1, N, table,
+                    ev(C1), vN, info)
         # (d) tuple syntax
-        Nt = nested_spec(alts, alone, nests, mus, pre + 'nested', p=pf, syntax='tuple')
+        Nt = nested_spec(alts, alone, nests, mus, pre + 'nested', p=pf, syntax='tuple', **xf)
         compare(rec, 'tuple-syntax-differs-from-nest-objects', pre + 'nested[tuple]', pre + 'nested[objects]', Nt, N, table, ev(Nt), vN,
                 info, rel=1e-13)
         if nests:
-            Ct = cnl_spec(alts, alone, whole, mus, pre + 'cnl', p=pf, alpha=af, syntax='tuple')
+            Ct = cnl_spec(alts, alone, whole, mus, pre + 'cnl', p=pf, alpha=af, syntax='tuple', **xf)
             compare(rec, 'tuple-syntax-differs-from-nest-objects', pre + 'cnl[tuple]', pre + 'cnl[objects]', Ct, C, table, ev(Ct), ev(C),
                     info, rel=1e-13)
         # scaled versions: (b) and (d) with mu != 1
         for mu in scales:
-            Nm = nested_spec(alts, alone, nests, mus, pre + 'nested_mev_mu', mu=mu, p=pf)
+            Nm = nested_spec(alts, alone, nests, mus, pre + 'nested_mev_mu', mu=mu, p=pf, **xm, **xf)
             if nests:
-                Cm = cnl_spec(alts, alone, whole, mus, pre + 'cnlmu', mu=mu, p=pf, alpha=af)
+                Cm = cnl_spec(alts, alone, whole, mus, pre + 'cnlmu', mu=mu, p=pf, alpha=af, **xm, **xf)
                 compare(rec, 'cnl-with-whole-memberships-differs-from-nested', pre + 'cnlmu', pre + 'nested_mev_mu', Cm, Nm, table,
                         ev(Cm), ev(Nm), dict(info, mu=mu))
             if not log:
-                Nmt = nested_spec(alts, alone, nests, mus, 'nested_mev_mu', mu=mu, p=pf, syntax='tuple')
+                Nmt = nested_spec(alts, alone, nests, mus, 'nested_mev_mu', mu=mu, p=pf, syntax='tuple', **xm, **xf)
                 compare(rec, 'tuple-syntax-differs-from-nest-objects', 'nested_mev_mu[tuple]', 'nested_mev_mu[objects]', Nmt, Nm,
                         table, ev(Nmt), ev(Nm), dict(info, mu=mu), rel=1e-13)
                 if nests:
-                    Cmt = cnl_spec(alts, alone, whole, mus, 'cnlmu', mu=mu, p=pf, alpha=af, syntax='tuple')
+                    Cmt = cnl_spec(alts, alone, whole, mus, 'cnlmu', mu=mu, p=pf, alpha=af, syntax='tuple', **xm, **xf)
                     compare(rec, 'tuple-syntax-differs-from-nest-objects', 'cnlmu[tuple]', 'cnlmu[objects]', Cmt, Cm, table,
                             ev(Cmt), ev(Cm), dict(info, mu=mu), rel=1e-13)
 
 
-def check_cnl_structure(alph, alts, alone, nests, mus, table, rec, tier, si=0):
-    """(c) and (d) for genuinely cross-nested structures."""
+def check_cnl_structure(alph, alts, alone, nests, mus, table, rec, tier, si=0, moved=None):
+    """(c) and (d) for genuinely cross-nested structures (moved: see check_nested_structure)."""
     ev = Evaluator(table, rec)
     cross = any(0.0 < a < 1.0 for n in nests for a in n.values())
     info = dict(shape='alone=' + ('yes' if alone else 'no') + ',cross=' + ('yes' if cross else 'no'), alone=list(alone),
@@ -208,31 +383,121 @@ def check_cnl_structure(alph, alts, alone, nests, mus, table, rec, tier, si=0):
     muform = B.MUFORMS[si % 3]
     pf = B.PFORMS[si % 4]
     af = B.ALPHAFORMS[si % 3]
+    xf, xm = {}, {}
+    if moved is not None:
+        muform = pf = af = 'movedbeta'
+        xf = dict(init=moved)
+        xm = dict(mu_form='movedbeta')
+        info = dict(info, parameters='moved-from-initial-values:' + moved)
     for log in (False, True):
         pre = 'log' if log else ''
-        C = cnl_spec(alts, alone, nests, mus, pre + 'cnl', p=pf, alpha=af)
-        C1 = cnl_spec(alts, alone, nests, mus, pre + 'cnlmu', mu=1.0, p=pf, alpha=af, mu_form=muform)
+        C = cnl_spec(alts, alone, nests, mus, pre + 'cnl', p=pf, alpha=af, **xf)
+        C1 = cnl_spec(alts, alone, nests, mus, pre + 'cnlmu', mu=1.0, p=pf, alpha=af, mu_form=muform, **xf)
         compare(rec, 'scale-one-differs-from-unscaled', pre + 'cnlmu(mu=1)', pre + 'cnl', C1, C, table, ev(C1), ev(C), info)
-        Ct = cnl_spec(alts, alone, nests, mus, pre + 'cnl', p=pf, alpha=af, syntax='tuple')
+        Ct = cnl_spec(alts, alone, nests, mus, pre + 'cnl', p=pf, alpha=af, syntax='tuple', **xf)
         compare(rec, 'tuple-syntax-differs-from-nest-objects', pre + 'cnl[tuple]', pre + 'cnl[objects]', Ct, C, table, ev(Ct), ev(C),
                 info, rel=1e-13)
     mu = alph['scale'][1]
-    Cm = cnl_spec(alts, alone, nests, mus, 'cnlmu', mu=mu, p=pf, alpha=af)
-    Cmt = cnl_spec(alts, alone, nests, mus, 'cnlmu', mu=mu, p=pf, alpha=af, syntax='tuple')
+    Cm = cnl_spec(alts, alone, nests, mus, 'cnlmu', mu=mu, p=pf, alpha=af, **xm, **xf)
+    Cmt = cnl_spec(alts, alone, nests, mus, 'cnlmu', mu=mu, p=pf, alpha=af, syntax='tuple', **xm, **xf)
     compare(rec, 'tuple-syntax-differs-from-nest-objects', 'cnlmu[tuple]', 'cnlmu[objects]', Cmt, Cm, table, ev(Cmt), ev(Cm),
             dict(info, mu=mu), rel=1e-13)
+
+
+# --------------------------------------------------------------------------- every public entry point
+def check_entry_points(alph, alts, alone, nests, mus, table, rec, avf='var', si=0):
+    """Clauses (a)-(d) for every public name of the family (ENTRIES), each compared with the canonical unscaled /
+    scaled nested logit (or logit) built by the snake_case functions with plain float parameters."""
+    ev = Evaluator(table, rec)
+    info = dict(shape=shape(alone, nests), alone=list(alone), nests=[list(n) for n in nests], mus=list(mus), availability=avf)
+    whole = [{a: 1.0 for a in n} for n in nests]
+    unit = all(m == 1.0 for m in mus)
+    scale = alph['scale'][1]
+    pf = B.PFORMS[si % 4]
+    af = B.ALPHAFORMS[si % 3]
+    muform = B.MUFORMS[si % 4]
+    canon = {}
+    for log in (False, True):
+        pre = 'log' if log else ''
+        canon[log] = dict(
+            logit=(pre + 'logit', dict(kind='logit', alts=list(alts), model=pre + 'logit', forms=dict(av=avf))),
+            nested=(pre + 'nested', nested_spec(alts, alone, nests, mus, pre + 'nested', av=avf)),
+            nested_mu=(pre + 'nested_mev_mu', nested_spec(alts, alone, nests, mus, pre + 'nested_mev_mu', mu=scale, av=avf)),
+            cnl=(pre + 'cnl', cnl_spec(alts, alone, whole, mus, pre + 'cnl', av=avf)),
+            cnl_mu=(pre + 'cnlmu', cnl_spec(alts, alone, whole, mus, pre + 'cnlmu', mu=scale, av=avf)))
+
+    def spec_of(fam, e, mu, syntax):
+        mk = nested_spec if fam == 'nested' else cnl_spec
+        st = nests if fam == 'nested' else whole
+        forms = dict(p=pf, av=avf, syntax=syntax)
+        if fam == 'cnl':
+            forms['alpha'] = af
+        if mu == 1.0:
+            forms['mu_form'] = muform
+        s = mk(alts, alone, st, mus, e['label'], mu=mu, **forms)
+        s['entry'] = e['entry']
+        if e['via']:
+            s['via'] = e['via']
+        return s
+
+    def cmp(clause, na, nb, sa, sb, extra=None, rel=REL):
+        compare(rec, clause, na, nb, sa, sb, table, ev(sa), ev(sb), dict(info, **(extra or {})), rel=rel)
+
+    for fam in ('nested', 'cnl'):
+        if fam == 'cnl' and not nests:
+            continue
+        for e in family_entries(fam):
+            c = canon[e['log']]
+            for mu in ([1.0, scale] if e['scaled'] else [None]):
+                name = e['label'] + ('' if mu is None else '(mu=1)' if mu == 1.0 else '')
+                So, St = spec_of(fam, e, mu, 'obj'), spec_of(fam, e, mu, 'tuple')
+                xi = None if mu in (None, 1.0) else dict(mu=mu)
+                cmp('tuple-syntax-differs-from-nest-objects', name + '[tuple]', name + '[objects]', St, So, xi, rel=1e-13)
+                if mu in (None, 1.0):
+                    if unit and fam == 'nested':
+                        cmp('nested-with-unit-parameters-differs-from-logit', name, c['logit'][0], So, c['logit'][1])
+                    if fam == 'cnl':
+                        cmp('cnl-with-whole-memberships-differs-from-nested', name, c['nested'][0], So, c['nested'][1])
+                    if mu == 1.0:
+                        unscaled = c['nested'] if fam == 'nested' else c['cnl']
+                        cmp('scale-one-differs-from-unscaled', name, unscaled[0], So, unscaled[1])
+                elif fam == 'cnl':
+                    cmp('cnl-with-whole-memberships-differs-from-nested', name, c['nested_mu'][0], So, c['nested_mu'][1], xi)
+                elif nests:
+                    cmp('cnl-with-whole-memberships-differs-from-nested', c['cnl_mu'][0], name, c['cnl_mu'][1], So, xi)
+    rec.count('entry_points_exercised', sum(1 for v in ENTRIES.values() if v[1] != 'generating' and (nests or v[0] == 'nested')))
 
 
 # --------------------------------------------------------------------------- (d) terms and (e) generating function
 OFFSETS = [0.125, -0.25, 0.375, -0.0625]
 
 
-def eval_generating(alts, alone, nests, mus, table, syntax, avform, uform='betavar', pform='float'):
+GEN_ENTRIES = [
+    # (generating function, terms, scale handed to the terms function: None = it takes none / form of mu = 1)
+    ('get_mev_generating_for_nested', 'get_mev_for_nested', None),        # the default (first) combination
+    ('getMevGeneratingForNested', 'getMevForNested', None),
+    ('get_mev_generating_for_nested', 'get_mev_for_nested_mu', 'float'),
+    ('getMevGeneratingForNested', 'getMevForNestedMu', 'fixbeta'),
+    ('get_mev_generating_for_nested', 'getMevForNestedMu', 'movedbeta'),
+    ('getMevGeneratingForNested', 'get_mev_for_nested_mu', 'numeric'),
+]
+
+
+def eval_generating(alts, alone, nests, mus, table, syntax, avform, uform='betavar', pform='float', entries=None, init='zero'):
     """Real library + engine.  Returns (G (groups,), dG/dV (groups, J) in alts order,
-    terms ln G_i from get_mev_for_nested (groups, J), term values with the other nest syntax)."""
+    terms ln G_i from get_mev_for_nested (groups, J), term values with the other nest syntax).
+    entries = (name of the generating function, name of the terms function, form of the scale mu = 1 or None)."""
     import numpy as np
     from biogeme import models
     from biogeme.expressions import Variable, Expression, Numeric
+    gen_name, terms_name, terms_mu = entries or GEN_ENTRIES[0]
+    moved = {}
+
+    def the_nests():
+        if pform == 'movedbeta':
+            f = dict(B.default_forms(), p=pform, syntax=syntax, init=init)
+            return build_nests6('nested', alts, nests, mus, f, moved)
+        return B.build_nested_nests(alts, (alone, nests), mus, syntax, pform)
 
     J = len(alts)
     db = table.database()
@@ -241,11 +506,22 @@ def eval_generating(alts, alone, nests, mus, table, syntax, avform, uform='betav
         beta = B._beta(f'bv_{a}', OFFSETS[k], 0)
         V[a] = beta + Variable(f'U_{a}') if uform == 'betavar' else beta
     av = B.build_av(alts, avform, table.pats[0])
-    nst = B.build_nested_nests(alts, (alone, nests), mus, syntax, pform)
-    G = models.get_mev_generating_for_nested(V, av, nst)
+    nst = the_nests()
+    with warnings.catch_warnings():
+        warnings.simplefilter('ignore', DeprecationWarning)
+        G = getattr(models, gen_name)(V, av, nst)
     betas = None
     if uform == 'beta':
         betas = {f'bv_{a}': table.us[0][k] for k, a in enumerate(alts)}
+    nst2 = the_nests()
+    with warnings.catch_warnings():
+        warnings.simplefilter('ignore', DeprecationWarning)
+        if terms_mu is None:
+            terms = getattr(models, terms_name)(V, av, nst2)
+        else:
+            terms = getattr(models, terms_name)(V, av, nst2, param6(terms_mu, 'mu_scale', 1.0, 'mu', init, moved))
+    if moved:
+        betas = dict(betas or {}, **moved)
     out = G.get_value_and_derivatives(betas=betas, database=db, gradient=True, hessian=False, bhhh=False, aggregation=False,
                                       prepare_ids=True, named_results=True)
     n = len(table.groups)
@@ -255,8 +531,6 @@ def eval_generating(alts, alone, nests, mus, table, syntax, avform, uform='betav
         d = out.gradients[g * J]
         for k, a in enumerate(alts):
             grad[g, k] = d[f'bv_{a}']
-    nst2 = B.build_nested_nests(alts, (alone, nests), mus, syntax, pform)
-    terms = models.get_mev_for_nested(V, av, nst2)
     T = np.zeros((n, J))
     for k, a in enumerate(alts):
         e = terms[a]
@@ -266,19 +540,25 @@ def eval_generating(alts, alone, nests, mus, table, syntax, avform, uform='betav
     return Gv, grad, T
 
 
-def check_generating(alph, alts, alone, nests, mus, table, rec, syntax='obj', avform='var', uform='betavar', pform='float'):
+def check_generating(alph, alts, alone, nests, mus, table, rec, syntax='obj', avform='var', uform='betavar', pform='float',
+                     entries=None, init='zero'):
+    """entries: one of GEN_ENTRIES (None = the snake_case functions); the names appear in the finding keys."""
     import numpy as np
     J = len(alts)
+    gen_name, terms_name, terms_mu = entries or GEN_ENTRIES[0]
+    terms_tag = terms_name + ('' if terms_mu is None else '(mu=1)')
+    xcase = {} if entries is None else dict(entries=list(entries), init=init)
     try:
-        Gv, grad, T = eval_generating(alts, alone, nests, mus, table, syntax, avform, uform, pform)
+        Gv, grad, T = eval_generating(alts, alone, nests, mus, table, syntax, avform, uform, pform, entries, init)
     except Exception as e:
         if isinstance(e, RuntimeError):
             rec.retire = True
-        rec.violation(f'{ID}|generating-function-raises-{type(e).__name__}|alone={"yes" if alone else "no"}|nests-as-{syntax}',
-                      f'get_mev_generating_for_nested / get_mev_for_nested raised {type(e).__name__}: {str(e)[:300]} '
+        names = '' if entries is None else f'{gen_name}/{terms_tag}|'
+        rec.violation(f'{ID}|generating-function-raises-{type(e).__name__}|{names}alone={"yes" if alone else "no"}|nests-as-{syntax}',
+                      f'{gen_name} / {terms_tag} raised {type(e).__name__}: {str(e)[:300]} '
                       f'(alone={list(alone)} nests={[list(n) for n in nests]} mus={list(mus)})',
                       dict(part='gen', alts=list(alts), alone=list(alone), nests=[list(n) for n in nests], mus=list(mus),
-                           group=table.describe_group(0), syntax=syntax, avform=avform, uform=uform, pform=pform),
+                           group=table.describe_group(0), syntax=syntax, avform=avform, uform=uform, pform=pform, **xcase),
                       observed=repr(e)[:300])
         rec.case(None, ('gen-raised', type(e).__name__), outcome=('gen', 'raised'))
         return
@@ -286,6 +566,8 @@ def check_generating(alph, alts, alone, nests, mus, table, rec, syntax='obj', av
     rec.observe(('gen', hashlib.sha1(Gv.tobytes() + grad.tobytes() + T.tobytes()).hexdigest()[:16]))
     info = dict(shape=shape(alone, nests), alone=list(alone), nests=[list(n) for n in nests], mus=list(mus),
                 syntax=syntax, avform=avform, uform=uform, pform=pform)
+    if entries is not None:
+        info = dict(info, entries=list(entries), init=init)
     ref_nests = list(zip(mus, nests))
     interesting = bool(alone) or any(m != 1.0 for m in mus)
     done = set()
@@ -302,14 +584,14 @@ def check_generating(alph, alts, alone, nests, mus, table, rec, syntax='obj', av
         avail_tag = 'availability=' + ('None' if avform == 'none' else 'given')
         alone_tag = 'alone=' + ('yes' if alone else 'no')
         case = dict(part='gen', alts=list(alts), alone=list(alone), nests=[list(n) for n in nests], mus=list(mus), group=grp,
-                    syntax=syntax, avform=avform, uform=uform, pform=pform)
+                    syntax=syntax, avform=avform, uform=uform, pform=pform, **xcase)
         ok = True
         # G value
         if all(avd[a] for a in alone):
             if not R.close(float(Gv[g]), Gref, REL, ABS):
                 ok = False
-                rec.violation(f'{ID}|generating-function-differs-from-closed-form|get_mev_generating_for_nested|{alone_tag}|{avail_tag}',
-                              f'get_mev_generating_for_nested = {Gv[g]!r} but G(e^V) = {Gref!r} at V={V} avail={pat} '
+                rec.violation(f'{ID}|generating-function-differs-from-closed-form|{gen_name}|{alone_tag}|{avail_tag}',
+                              f'{gen_name} = {Gv[g]!r} but G(e^V) = {Gref!r} at V={V} avail={pat} '
                               f'(alone={list(alone)} nests={[list(n) for n in nests]} mus={list(mus)}, nests as {syntax})',
                               case, expected=Gref, observed=float(Gv[g]))
         else:
@@ -325,16 +607,17 @@ def check_generating(alph, alts, alone, nests, mus, table, rec, syntax='obj', av
             lref = math.log(Giref[a])
             if not R.close(t, lref, REL, 1e-11):
                 ok = False
-                rec.violation(f'{ID}|published-term-differs-from-closed-form-log-derivative|get_mev_for_nested|{alone_tag}|{avail_tag}',
-                              f'get_mev_for_nested[{a}] = {t!r} but ln dG/dy = {lref!r} at V={V} avail={pat} ({info})',
+                rec.violation(f'{ID}|published-term-differs-from-closed-form-log-derivative|{terms_tag}|{alone_tag}|{avail_tag}',
+                              f'{terms_tag}[{a}] = {t!r} but ln dG/dy = {lref!r} at V={V} avail={pat} ({info})',
                               dict(case, alt=a), expected=lref, observed=t)
             if not R.close(lg, t, REL, 1e-11):
                 ok = False
                 where = 'outside-every-nest' if a in alone else 'in-nest'
-                rec.violation(f'{ID}|published-term-is-not-log-derivative-of-published-generating-function|alternative-{where}|'
+                names = '' if entries is None else f'{gen_name}/{terms_tag}|'
+                rec.violation(f'{ID}|published-term-is-not-log-derivative-of-published-generating-function|{names}alternative-{where}|'
                               f'{avail_tag}',
-                              f'ln(d get_mev_generating_for_nested / dV_{a}) - V_{a} = {lg!r} (engine gradient {d!r}) but '
-                              f'get_mev_for_nested[{a}] = {t!r} (closed form {lref!r}) at V={V} avail={pat} '
+                              f'ln(d {gen_name} / dV_{a}) - V_{a} = {lg!r} (engine gradient {d!r}) but '
+                              f'{terms_tag}[{a}] = {t!r} (closed form {lref!r}) at V={V} avail={pat} '
                               f'(alone={list(alone)} nests={[list(n) for n in nests]} mus={list(mus)}, nests as {syntax})',
                               dict(case, alt=a), expected=t, observed=lg)
         per_pat_ok.setdefault(pi, []).append(ok)
@@ -373,7 +656,33 @@ def tasks(tier, seed):
         n = len(R.cnl_structures(alph['labels'][:J], M, alph['splits'][:ns]))
         for ch in B._chunks(range(n), per):
             t.append(dict(part='cnl', J=J, M=M, ns=ns, pa=pa, structs=ch, seed=seed, tier=tier))
+    # every public entry point / parameters moved away from their initial values
+    for J in range(2, Jmax + 1):
+        structs = R.nested_structures(alph['labels'][:J])
+        per = {2: 3, 3: 2, 4: 2}[J] if quick else {2: 2, 3: 1, 4: 2}[J]
+        for ch in B._chunks(range(len(structs)), per):
+            t.append(dict(part='entry', J=J, structs=ch, seed=seed, tier=tier))
+        with_nests = [i for i, st in enumerate(structs) if st[1]]
+        for ch in B._chunks(with_nests, {2: 2, 3: 2, 4: 1}[J]):
+            t.append(dict(part='moved', J=J, structs=ch, seed=seed, tier=tier))
+        for ch in B._chunks(range(len(structs)), {2: 5, 3: 3, 4: 4}[J]):
+            t.append(dict(part='gen_entries', J=J, structs=ch, seed=seed, tier=tier))
+    for J, M, ns, pa, per, _sc in B.cnl_config(tier):
+        n = len(R.cnl_structures(alph['labels'][:J], M, alph['splits'][:ns]))
+        for ch in B._chunks(range(n), per * 2):
+            t.append(dict(part='moved_cnl', J=J, M=M, ns=ns, pa=pa, structs=ch, seed=seed, tier=tier))
     return t
+
+
+def assignments(alph, n, si, full):
+    """nest parameter assignments of the entry-point / moved-parameter parts: the full product of the grid, or (largest
+    families) the all-ones assignment and one assignment without ones that rotates with the structure."""
+    g = alph['mus']
+    if full:
+        return [list(m) for m in itertools.product(g, repeat=n)]
+    if n == 0:
+        return [[]]
+    return [[g[0]] * n, [g[1 + (si + k) % 2] for k in range(n)]]
 
 
 def _table(alph, J, tier, small=False):
@@ -435,30 +744,96 @@ def run_task(task):
                         t1 = B.Table(alts, [u], [pat])
                         check_generating(alph, alts, alone, nests, mus, t1, rec, 'obj', 'const', 'beta', 'float')
             rec.sample(dict(part='gen', alts=alts, alone=alone, nests=nests))
+    elif task['part'] == 'entry':
+        missing = unlisted_entry_points()
+        if missing:
+            rec.count('public_names_of_the_family_without_a_role_in_ENTRIES', len(missing))
+        structs = R.nested_structures(alts)
+        table = _table(alph, J, tier, small=True)
+        tnone = B.Table(alts, table.us, table.pats[:1])
+        for si in task['structs']:
+            alone, nests = structs[si]
+            for mi, mus in enumerate(assignments(alph, len(nests), si, full=(tier != 'quick' and J <= 3))):
+                check_entry_points(alph, alts, alone, nests, mus, table, rec, 'var', si + mi)
+                check_entry_points(alph, alts, alone, nests, mus, tnone, rec, 'none', si + mi + 1)
+        rec.sample(dict(part='entry', alts=alts, first=structs[task['structs'][0]], entry_points=sorted(ENTRIES),
+                        not_in_menu=missing))
+    elif task['part'] == 'moved':
+        structs = R.nested_structures(alts)
+        table = _table(alph, J, tier, small=True)
+        for si in task['structs']:
+            alone, nests = structs[si]
+            for mus in assignments(alph, len(nests), si, full=(tier != 'quick' and J <= 3)):
+                for mode in INIT_MODES:
+                    check_nested_structure(alph, alts, alone, nests, mus, table, rec, tier, si, moved=mode)
+        rec.sample(dict(part='moved', alts=alts, first=structs[task['structs'][0]], initial_values=INIT_MODES))
+    elif task['part'] == 'moved_cnl':
+        structs = R.cnl_structures(alts, task['M'], alph['splits'][:task['ns']])
+        table = _table(alph, J, tier, small=True)
+        for si in task['structs']:
+            alone, nests = structs[si]
+            if not any(0.0 < a < 1.0 for n in nests for a in n.values()):
+                rec.count('cnl_structure_without_cross_membership_covered_by_nested_part')
+                continue
+            mus_list = B._cnl_mus(alph, task['M'], 'reduced')
+            # one parameter assignment (distinct values) x every initial-value mode; thorough: a second assignment
+            for mus in ([mus_list[-1]] if tier == 'quick' else [mus_list[1], mus_list[-1]]):
+                for k, mode in enumerate(INIT_MODES):
+                    if tier == 'quick' and (J, task['M']) != (2, 2) and k != si % 3 and mode != 'zero':
+                        continue    # largest families: 'zero' and one rotating other mode
+                    check_cnl_structure(alph, alts, alone, nests, list(mus), table, rec, tier, si, moved=mode)
+        rec.sample(dict(part='moved_cnl', alts=alts, M=task['M'], first=structs[task['structs'][0]]))
+    elif task['part'] == 'gen_entries':
+        structs = R.nested_structures(alts)
+        table = _table(alph, J, tier, small=True)
+        tnone = B.Table(alts, table.us, table.pats[:1])
+        for si in task['structs']:
+            alone, nests = structs[si]
+            for mi, mus in enumerate(assignments(alph, len(nests), si, full=(tier != 'quick' and J <= 3))):
+                for ei, entries in enumerate(GEN_ENTRIES[1:]):
+                    if J > 2 and tier == 'quick' and ei != (si + mi) % (len(GEN_ENTRIES) - 1):
+                        continue    # J = 2: every combination of names; above: rotating with the structure
+                    k = si + mi + ei
+                    syntax = 'obj' if k % 2 == 0 else 'tuple'
+                    pform = (B.PFORMS + ['movedbeta'])[k % 5]
+                    init = INIT_MODES[k % 3]
+                    check_generating(alph, alts, alone, nests, mus, table, rec, syntax, 'var', 'betavar', pform, entries, init)
+                    check_generating(alph, alts, alone, nests, mus, tnone, rec, 'tuple' if syntax == 'obj' else 'obj', 'none',
+                                     'betavar', pform, entries, init)
+        rec.sample(dict(part='gen_entries', alts=alts, first=structs[task['structs'][0]], names=GEN_ENTRIES[1:]))
     else:
         raise ValueError(task['part'])
     return rec.result()
 
 
 # --------------------------------------------------------------------------- replay
+def _unjson(spec):
+    """a JSON round trip turns the alternative ids that key the alpha dictionaries into strings: restore them."""
+    if spec.get('kind') != 'cnl':
+        return spec
+    by_str = {str(a): a for a in spec['alts']}
+    return dict(spec, nests=[{by_str.get(str(a), a): v for a, v in n.items()} for n in spec['nests']])
+
+
 def replay(case):
     rec = Rec()
     if case['part'] == 'gen':
         grp = case['group']
         table = B.Table(case['alts'], [grp['u']], [grp['avail']])
+        entries = tuple(case['entries']) if case.get('entries') else None
         check_generating(None, case['alts'], case['alone'], case['nests'], case['mus'], table, rec, case['syntax'],
-                         case['avform'], case['uform'], case['pform'])
+                         case['avform'], case['uform'], case['pform'], entries, case.get('init', 'zero'))
         return rec.violations
     if case['part'] == 'raise':
         grp = case['group']
         ev = Evaluator(B.Table(case['spec']['alts'], [grp['u']], [grp['avail']]), rec)
-        ev(case['spec'])
+        ev(_unjson(case['spec']))
         return rec.violations
     grp = case['group']
     alts = case['a']['alts']
     table = B.Table(alts, [grp['u']], [grp['avail']])
-    va = B.eval_spec(case['a'], table)
-    vb = B.eval_spec(case['b'], table)
+    va = eval_any(_unjson(case['a']), table)
+    vb = eval_any(_unjson(case['b']), table)
     rel = 1e-13 if case['clause'].startswith('tuple') else REL
     compare(rec, case['clause'], case['names'][0], case['names'][1], case['a'], case['b'], table, va, vb, case['info'], rel=rel)
     return rec.violations
